@@ -54,6 +54,9 @@ def instantiations(tier, seed):
     if tier == "quick":
         out.append({"shape": [2, 2, 2], "axis": 0, "method": "first"})
         out.append({"shape": [2, 2, 2], "axis": 0, "method": "max"})
+        out.append({"shape": [2, 2, 2], "axis": 0, "method": "last"})        # several batches: results stay with their batch
+        out.append({"shape": [3, 1, 2], "axis": 0, "method": "min"})
+        out.append({"shape": [3, 2, 1], "axis": 0, "method": "last"})
     for mu in ("no_dominance", "ignore_row_order"):
         out.append({"kind": "mutant", "mutant": mu, "shape": [2, 2], "axis": 0, "method": "shadow"})
     return out
